@@ -688,6 +688,10 @@ func validateTrace(h *interp.Harness, rp *replayer, prop string, e Exploration, 
 	b, _ := json.Marshal(rf)
 	os.WriteFile(path, b, 0o644)
 	_, out := rp.run(path, rf)
+	if i := strings.Index(out, "VXFAIL"); i >= 0 {
+		// an assertion that only the native run evaluates (e.g. a step through the ANTLR parser) failed
+		return false, "native run of the pinned vector failed an assertion: " + firstLines(out[i:], 2)
+	}
 	var native []string
 	for _, l := range strings.Split(out, "\n") {
 		if i := strings.Index(l, "VXOBS "); i >= 0 {
